@@ -781,17 +781,50 @@ def shift_out_clear(enc):
     return ((int.from_bytes(enc, 'big') << 9) & ((1 << nb) - 1)).to_bytes(len(enc), 'big') if enc else enc
 
 
+def lzw_encode_noclear(data, early=1):
+    """an encoder that keeps a full table instead of clearing it (not what the standard asks of an encoder, but decoders meet
+    such streams): codes up to 4095 are used, no entry is added once 4096 codes exist, the width stays at 12 bits"""
+    bits = []
+    nxt = 258
+    k = 0            # codes since the clear
+    def emit(code):
+        n = 257 + k + early
+        w = 9 if n < 512 else 10 if n < 1024 else 11 if n < 2048 else 12
+        for j in range(w - 1, -1, -1):
+            bits.append((code >> j) & 1)
+    table = {bytes([i]): i for i in range(256)}
+    emit(256)
+    w = b''
+    for c in data:
+        wc = w + bytes([c])
+        if wc in table:
+            w = wc
+            continue
+        emit(table[w]); k += 1
+        if nxt < 4096:
+            table[wc] = nxt
+            nxt += 1
+        w = bytes([c])
+    if w:
+        emit(table[w]); k += 1
+    emit(257)
+    while len(bits) % 8:
+        bits.append(0)
+    return bytes(int(''.join(map(str, bits[i:i + 8])), 2) for i in range(0, len(bits), 8))
+
+
 def gen_lzw_rt(rng, ec, data, limit, what):
-    """DATA through three encoders (Gallina with the clearing limit `limit`, weezl, Python reference); the model decodes the
-    three streams with the Gallina decoder, the harness with weezl's: every answer must be DATA"""
+    """DATA through four encoders (Gallina with the clearing limit `limit`, weezl, Python reference, Python without clearing a
+    full table); the model decodes the streams with the Gallina decoder, the harness with weezl's: every answer must be DATA"""
     sq = L('case', 'lzwenc', str(ec), str(limit), xb(data))
     def make(ans):
         se = ans[('spec', sq)]
         we = ans[('e%d' % ec, data)]
         pe = lzw_encode(data, ec)
-        return L('case', 'lzwrt', str(ec), str(limit), xb(data), L('encs', xb(se), xb(we), xb(pe)))
+        ne = lzw_encode_noclear(data, ec)       # uses code 4095 and goes on with a full table
+        return L('case', 'lzwrt', str(ec), str(limit), xb(data), L('encs', xb(se), xb(we), xb(pe), xb(ne)))
     cov = ['lzwspec-e%d' % ec, 'lzwspec-limit%d' % limit]
-    if len(lzw_encode(data, ec)) * 8 // 12 > 3840:
+    if what.startswith('tablefull'):
         cov.append('lzwspec-table-full')
     return Pending(make, [('e%d' % ec, data)], {'kind': 'lzwspec-rt-' + what, 'nontrivial': len(data) > 0, 'cov': cov}, [sq])
 
@@ -879,6 +912,8 @@ def gen_codecs(rng, tier):
         for rep in range(k):
             # more than 4096 - 258 codes: the table fills up and is cleared, by each encoder at its own point
             items.append(gen_lzw_rt(rng, ec, rand_bytes(rng, rng.choice([4200, 5000]), 'random'), 4096, 'tablefull'))
+            r = rand_bytes(rng, 4500, 'random')          # the second half uses the last entries of the full table
+            items.append(gen_lzw_rt(rng, ec, r + r, 4096, 'tablefull-reused'))
             items.append(gen_lzw_rt(rng, ec, allb * rng.randint(17, 20), 4096, 'tablefull-allbytes'))
             items.append(gen_lzw_rt(rng, ec, rand_bytes(rng, 4500, 'random'), rng.choice([4095, 4094, 4093]), 'tablefull-sooner'))
             items.append(gen_lzw_rt(rng, ec, rand_bytes(rng, rng.choice([300, 1000, 2000])), rng.choice([259, 260, 300, 511, 512, 513, 1024, 2049]), 'sooner'))
@@ -890,7 +925,10 @@ def gen_codecs(rng, tier):
                 items.append(gen_lzw_rt(rng, ec, rand_bytes(rng, rng.choice([100, 1500, 6000 if k > 1 else 3000]), kind), 4096, kind))
     for _ in range(60 * k):
         items.append(gen_lzw_dec(rng))
-    for d, what in ((b'', 'empty'), (b'a', 'one'), (allb, 'allbytes')):
+    far = rand_bytes(rng, 31000, 'random')
+    # matches of the largest length (258) and at the largest distances (distance codes 28 and 29: 16385..32768 back)
+    for d, what in ((b'', 'empty'), (b'a', 'one'), (allb, 'allbytes'), (bytes(3000), 'len258'),
+                    (far[:20000] + far[:600], 'dist20000'), (far + far[:600], 'dist31000')):
         items.append(gen_zlib_rt(rng, d, 65534, what))
     for rep in range(k):
         for kind in ('random', 'text', 'zeros', 'runs', 'small'):
@@ -898,7 +936,7 @@ def gen_codecs(rng, tier):
                 if k > 1 or rng.random() < 0.5:
                     items.append(gen_zlib_rt(rng, rand_bytes(rng, n + rng.randint(0, 50), kind), rng.choice([65534, 65534, 0, 6, 99, 4095]), kind))
         # more than one stored block of the largest size (65535 bytes)
-        items.append(gen_zlib_rt(rng, rand_bytes(rng, 65535 + rng.choice([0, 1, 500]), rng.choice(['text', 'random'])), 65534, 'block65535'))
+        items.append(gen_zlib_rt(rng, rand_bytes(rng, 65535 + rng.choice([0, 1, 500]), 'random' if k == 1 else rng.choice(['text', 'random'])), 65534, 'block65535'))
     if k > 1:
         items.append(gen_zlib_rt(rng, rand_bytes(rng, 2 * 65535 + 1, 'text'), 65534, 'block65535x2'))
     for _ in range(60 * k):
